@@ -8,7 +8,7 @@ From EN Require Import Lib.Bytes
                        Frame.Framer Frame.ReadUntil Stream.Consumer Stream.SpecDecode Stream.Endpoint Stream.EndpointSpec
                        Conc.SockReader Conc.SockReaderSpec Conc.BlockRecv Conc.SockEndpoint
                        Proofs.C10_refute Proofs.C10_inv Proofs.C10_obs Proofs.C10_queue Proofs.C10_blocking
-                       Proofs.C10_endpoint Proofs.C10_endpoint_inst.
+                       Proofs.C10_endpoint Proofs.C10_endpoint_inst Proofs.C10_reexport.
 
 (* F4 (defect of the unchanged tree): recv_into(8); read event "hello"; task.cancel(); next iteration; wake-up
    (CancelledError); read event " world"; recv(64) returns " world" -- "hello" is gone, no error is reported. *)
@@ -127,6 +127,39 @@ Theorem recv_packet_no_loss_read_until :
       exists rest, fst (spec_events sep keep_end dec (delivered (sk es))) = events es ++ rest.
 Proof. exact recv_packet_no_loss_read_until_proof. Qed.
 Print Assumptions recv_packet_no_loss_read_until.
+
+(* The buffer-filling receiver (_BufferedReceiverImpl / _BufferedRequestReceiver over BufferedStreamDataConsumer).  After a
+   cancelled recv_into the consumer is left with its write buffer exported; [buffered_consumer_reexport]: on a state with
+   nothing pending and no exported view, get_write_buffer() twice gives the same view, next(None) on the exported state
+   raises StopIteration and un-exports it, get_write_buffer() then re-exports the same view, and next(None) on the
+   un-exported state is a no-op -- for every buffered framer, by computation on Stream/Consumer.v. *)
+Theorem buffered_consumer_reexport : forall P (F : bframer P) sizehint (c c1 : bcstate F) room,
+  balready c = 0 -> bexported c = None ->
+  sroom (buf_smachine F sizehint) c = Some (c1, room) ->
+  sroom (buf_smachine F sizehint) c1 = Some (c1, room) /\
+  exists c2, sdrain (buf_smachine F sizehint) c1 = (c2, RStop) /\
+             sroom (buf_smachine F sizehint) c2 = Some (c1, room) /\
+             sdrain (buf_smachine F sizehint) c2 = (c2, RStop).
+Proof. exact buf_reexport. Qed.
+Print Assumptions buffered_consumer_reexport.
+
+(* hence the endpoint corollary for the buffer-filling receiver over ANY buffered framer whose consumer satisfies the
+   C03 interface with drained states that have nothing pending and no exported view (C03's bru_D is of that form;
+   the closed read_until instance is one `exact` away once Proofs/C03_bufreaduntil.v builds again, see the notes) *)
+Theorem recv_packet_no_loss_buffered :
+  forall P (F : bframer P) sizehint (spec : bytes -> list (nres P)) (G : bytes -> Prop)
+         (R : bcstate F -> bytes -> nat -> Prop) (D : bcstate F -> bytes -> Prop),
+    consumer_ok_rel (buf_machine F sizehint) spec G R D ->
+    (forall c d, D c d -> balready c = 0 /\ bexported c = None) ->
+    forall (latching : bool) c0 ls,
+      R c0 [] 0 ->
+      let es := erun (buf_smachine F sizehint) true latching (einit c0) ls in
+      G (delivered (sk es)) ->
+      (exists rest, spec (delivered (sk es)) = events es ++ rest) /\
+      (exists tail, returned (sk es) ++ parked (sk es) ++ tail = delivered (sk es) /\
+                    (tail <> [] -> lost_exc (sk es) <> None)).
+Proof. exact recv_packet_no_loss_buffered_proof. Qed.
+Print Assumptions recv_packet_no_loss_buffered.
 
 (* non-vacuity: a recv_packet cancelled in the iteration of its read event, then the packet comes out *)
 Example endpoint_cancel_example :
